@@ -42,6 +42,15 @@ Definition expected_skeleton : list (string * list string) := [
     "set:self._args=args";
     "set:self._kwargs=kwargs";
     "return:self"]);
+  ("SpatialTransform.grid",
+   ["if:grid is None";
+    "return:self._grid";
+    "endif";
+    "call:shallow_copy(self)";
+    "call:copy._parameters.copy()";
+    "set:copy._parameters=copy._parameters.copy()";
+    "call:copy.grid_(grid)";
+    "return:copy.grid_(grid)"]);
   ("SpatialTransform.grid_",
    ["if:self._grid == grid and self._grid.align_corners() == grid.align_corners()";
     "return:self";
@@ -147,6 +156,13 @@ Definition expected_skeleton : list (string * list string) := [
     "endif";
     "endif";
     "endif"]);
+  ("ParametricTransform.has_parameters",
+   ["if:isinstance(params, ParametricTransform)";
+    "call:isinstance(params, ParametricTransform)";
+    "return:params.has_parameters()";
+    "endif";
+    "call:isinstance(params, Parameter)";
+    "return:isinstance(params, Parameter)"]);
   ("ParametricTransform.reset_parameters",
    ["decorator:torch.no_grad()";
     "if:params is None";
@@ -179,6 +195,8 @@ Definition expected_skeleton : list (string * list string) := [
     "raise:ValueError";
     "endif";
     "call:shallow_copy(self)";
+    "call:copy._parameters.copy()";
+    "set:copy._parameters=copy._parameters.copy()";
     "if:callable(params)";
     "call:callable(params)";
     "call:delattr(copy, 'p')";
@@ -271,6 +289,12 @@ Definition expected_skeleton : list (string * list string) := [
     "endif";
     "endif";
     "return:self"]);
+  ("ParametricTransform.unlink",
+   ["call:shallow_copy(self)";
+    "call:copy._parameters.copy()";
+    "set:copy._parameters=copy._parameters.copy()";
+    "call:copy.unlink_()";
+    "return:copy.unlink_()"]);
   ("ParametricTransform.unlink_",
    ["set:self.params=None";
     "if:hasattr(self, 'p')";
@@ -425,11 +449,25 @@ Definition expected_skeleton : list (string * list string) := [
     "call:self.register_buffer('v', v, persistent=False)";
     "call:self.register_buffer('u', u, persistent=False)";
     "return:self"]);
+  ("CompositeTransform._copy_with_transforms",
+   ["call:shallow_copy(self)";
+    "call:ModuleDict()";
+    "for:(name, transform) in self.named_transforms()";
+    "call:self.named_transforms()";
+    "if:isinstance(transform, CompositeTransform)";
+    "call:isinstance(transform, CompositeTransform)";
+    "setitem:transforms[name]";
+    "else";
+    "call:shallow_copy(transform)";
+    "setitem:transforms[name]";
+    "endif";
+    "endfor";
+    "set:copy._transforms=transforms";
+    "return:copy"]);
   ("CompositeTransform.condition",
    ["if:args or kwargs";
-    "call:shallow_copy(self).condition_(*args, **kwargs)";
-    "call:shallow_copy(self)";
-    "return:shallow_copy(self).condition_(*args, **kwargs)";
+    "call:self._copy_with_transforms().condition_(*args, **kwargs)";
+    "return:...";
     "endif";
     "return:(self._args, self._kwargs)"]);
   ("CompositeTransform.condition_",
@@ -440,6 +478,12 @@ Definition expected_skeleton : list (string * list string) := [
     "call:transform.condition_(*args, **kwargs)";
     "endfor";
     "return:self"]);
+  ("CompositeTransform.grid",
+   ["if:grid is None";
+    "return:self._grid";
+    "endif";
+    "call:self._copy_with_transforms().grid_(grid)";
+    "return:self._copy_with_transforms().grid_(grid)"]);
   ("CompositeTransform.update",
    ["call:super().update()";
     "for:transform in self.transforms()";
@@ -524,4 +568,7 @@ Lemma gen_cfg_all : cfg_all gen_cfg = true.
 Proof. vm_compute. reflexivity. Qed.
 
 Lemma generic_inverse_ok : gen_generic_inverse_ok = true.
+Proof. vm_compute. reflexivity. Qed.
+
+Lemma accessor_private_ok : gen_accessor_private = true.
 Proof. vm_compute. reflexivity. Qed.
